@@ -233,3 +233,7 @@ func verifModelDriver(nSeq int) {
 	zz.Observe("model-validation", sequences, events)
 	zz.ModelValidated = sequences
 }
+
+// VerifUseRealFSM lets native-only harnesses of other packages run on the REAL state-machine
+// group instead of the model.
+func VerifUseRealFSM(on bool) { verifUseRealFSM = on }
